@@ -287,6 +287,27 @@ func rulesC04(e *Engine, r *Report) {
 	}
 	// ---------------------------------------------------------------- R04.12
 	e.shareRule(r, "C05", "R05.6", "R04.12", "a held file stays held: a record of the log replaces only cache entries that themselves came from the log - a validated file waiting for its predecessor must not turn into `logged`, which its successors take for delivered")
+	// ---------------------------------------------------------------- R04.13
+	r.Rule("R04.13", "... nor before everything still to be validated is known as such: Recover itself enters the files of its validate list as `received` (the validators do it again as they get to them), and no such entry follows the first hand-over to the finalize chain - a new version of a predecessor that was received completely before the receiver went down is `logged`, the earlier version's record, until then")
+	if fn := needFn(e, r, "R04.13", "stage.(*Stage).Recover"); fn != nil {
+		entries := e.findInstrs(fn, "call(stage.(*Stage).toCache)(p0, §, "+sc.received+")", false)
+		r.Min("R04.13", "entries of files to be validated in Recover itself", len(entries), 1)
+		i := 0
+		Instrs(fn, func(in ssa.Instruction) {
+			g, ok := in.(*ssa.Go)
+			if !ok || e.CalleeKey(g.Common()) != "stage.(*Stage).finalizeQueue" {
+				return
+			}
+			i++
+			res := e.Flow(fn, FlowOpts{StartAfter: in, Target: e.instrMatch("call(stage.(*Stage).toCache)(p0, §, " + sc.received + ")")})
+			n := 0
+			for _, ws := range res.At {
+				n += len(ws)
+			}
+			r.Check(n == 0 && !res.Undecided, "R04.13", fmt.Sprintf("stage.(*Stage).Recover: no toCache(received) after hand-over #%d", i), e.InstrPos(in),
+				"a file still to be validated is entered after a parked file was already handed to the finalize chain: the parked file may find its predecessor's new version still under the old version's `logged` record", res.Evals)
+		})
+	}
 }
 
 // allocsOf returns the composite-literal allocations of type *T in fn.
